@@ -1,10 +1,7 @@
-"""Per-property workload sizes, evidence floors and evidence texts (read by ./check)."""
+"""Per-property workload sizes, evidence floors and manifest texts (read by ./check and tools/gen_manifest.py)."""
 
-def tiers(q_shards, q_budget, q_cap, t_shards, t_budget, t_cap, min_evals=50, min_cells=4):
-    return {
-        "quick": {"shards": q_shards, "budget": q_budget, "time_cap": q_cap, "min_evals": min_evals, "min_cells": min_cells},
-        "thorough": {"shards": t_shards, "budget": t_budget, "time_cap": t_cap, "min_evals": min_evals * 5, "min_cells": min_cells},
-    }
+PROPS = {}
+MANIFEST_TEXT = {}
 
 COMMON_ASSUMPTIONS = [
     "ckb-types / molecule / ckb-merkle-mountain-range / golomb-coded-set / ckb-script are used by both the simulated server and the client (shared trusted base)",
@@ -12,21 +9,41 @@ COMMON_ASSUMPTIONS = [
     "the client's own thread_rng draws are not seeded: a seed fixes the scenario, not the client's samples",
 ]
 
-PROPS = {
-    "C05": dict(
-        level="exploration",
-        rule="one evaluation = one judged event (delivered honest message: no ban/disconnect/panic) or one convergence judgement per phase; "
-             "a cell = (chain length class, last-N, peers, disturbance kind, PoW flavour, difficulty mode)",
-        assumptions=COMMON_ASSUMPTIONS,
-        **tiers(16, 40, 60, 16, 1500, 600, min_evals=2000, min_cells=20),
-    ),
-}
+
+def tiers(q_shards, q_budget, q_cap, t_shards, t_budget, t_cap, min_evals=50, min_cells=4):
+    return {
+        "quick": {"shards": q_shards, "budget": q_budget, "time_cap": q_cap, "min_evals": min_evals, "min_cells": min_cells},
+        "thorough": {"shards": t_shards, "budget": t_budget, "time_cap": t_cap, "min_evals": min_evals * 5, "min_cells": min_cells},
+    }
 
 
-MANIFEST_TEXT = {
-    "C05": dict(
-        technique="runtime monitoring: RecNet ban/disconnect monitor + bounded-progress convergence oracle over generated honest sync histories",
-        level_text="Held on N generated honest histories (variable-difficulty chains with real Eaglesong PoW or dummy PoW at 2^100..2^190 difficulty, 1-4 peers incl. lagging views, growth, restarts, shallow reorgs, joins/leaves) in which the client's own random FlyClient requests are answered by an RFC-conformant server: no ban, no unexplained disconnect, no panic, tip = heaviest announced tip within 60 scheduler rounds. Exploration, not proof: reach is the generated scenario space.",
-        level_note="honest server simulator and chain generator are part of the trusted base; check point interval > last-N as in production; liveness restated as bounded progress (R=60 rounds, measured max 8)",
-    ),
-}
+def prop(pid, level, rule, sizes, technique, level_text, level_note, assumptions=None, **extra):
+    d = dict(level=level, rule=rule, assumptions=assumptions if assumptions is not None else COMMON_ASSUMPTIONS)
+    d.update(sizes)
+    d.update(extra)
+    PROPS[pid] = d
+    MANIFEST_TEXT[pid] = dict(technique=technique, level_text=level_text, level_note=level_note)
+
+
+prop(
+    "C05", "exploration",
+    rule="one evaluation = one judged event (delivered honest message: no ban/disconnect/panic) or one convergence judgement per phase; "
+         "a cell = (chain length class, last-N, peers, disturbance kind, PoW flavour, difficulty mode)",
+    sizes=tiers(16, 40, 60, 16, 1500, 600, min_evals=2000, min_cells=20),
+    technique="runtime monitoring: RecNet ban/disconnect monitor + bounded-progress convergence oracle over generated honest sync histories",
+    level_text="Held on N generated honest histories (variable-difficulty chains with real Eaglesong PoW or dummy PoW at 2^100..2^190 difficulty, 1-4 peers incl. lagging views, growth, restarts, shallow reorgs, joins/leaves) in which the client's own random FlyClient requests are answered by an RFC-conformant server: no ban, no unexplained disconnect, no panic, tip = heaviest announced tip within 60 scheduler rounds. Exploration, not proof: reach is the generated scenario space.",
+    level_note="honest server simulator and chain generator are part of the trusted base; check point interval > last-N as in production; liveness restated as bounded progress (R=60 rounds, measured max 8)",
+)
+
+prop(
+    "C14", "exploration",
+    rule="one evaluation = one call of verify_tau / verify_total_difficulty judged against the constructed history (completeness), a must-reject class, "
+         "the interval/shift metamorphic relations, or no-abort; a cell = (oracle part, trend class, epoch-switch class)",
+    sizes=tiers(16, 300, 60, 16, 20000, 900, min_evals=20000, min_cells=20),
+    technique="runtime monitoring of direct calls: constructed-legal-history completeness oracle, must-reject classes, metamorphic interval/shift relations, panic capture with overflow checks on",
+    level_text="verify_tau / verify_total_difficulty called on every legal epoch history of a small grid (complete enumeration up to 4/5 switches) and on random legal walks up to 3000 epochs and 2^230 difficulties: every legal end-point pair accepted; decreasing totals, same-epoch / one-switch mismatches, faster-than-tau end difficulties and totals outside the unconditional tau envelope rejected; accepted totals form an interval and are shift invariant; arbitrary numbers (malformed epochs, extreme compact targets, 0 / 2^256-1 totals) must not panic.",
+    level_note="the slack between the exact end-point-conditioned envelope and the unconditional envelope is deliberately not judged; numext U256 and ckb compact conversion are trusted",
+    assumptions=["legal history = epoch difficulties (block difficulty x epoch length) with tau*D' >= D and D' <= tau*D in exact integers; compact targets canonical (round-trip stable)",
+                 "must-reject side judged only outside the unconditional tau envelope with flooring margin 2n(n+1) (DESIGN C14 / appendix C)"],
+    exhaustive_note="the small grid (epoch lengths {1,2,3,7} x block difficulties {1..200}, every legal sequence up to 4 (quick) / 5 (thorough) switches, all start/end indices of short epochs) is enumerated completely unless the evidence notes say TRUNCATED",
+)
